@@ -2,8 +2,8 @@
 From Coq Require Import Reals List String Bool.
 From V.base Require Import Num.
 From V.gen Require Import Distributions.
-From V.model Require Import DistHand Conditional.
-From V.proofs Require Import DistProofs DistFitProofs DistDocProofs CondProofs.
+From V.model Require Import DistHand Conditional ScipyDist.
+From V.proofs Require Import DistProofs DistFitProofs DistDocProofs CondProofs ScipyDistProofs.
 Import ListNotations.
 Local Open Scope R_scope.
 Local Open Scope string_scope.
@@ -341,6 +341,31 @@ Theorem C11_cond_fixed_independent_of_given :
        nth_error (get_param_values app spec g1) i = nth_error (get_param_values app spec g2) i.
 Proof. exact (@gpv_fixed_independent). Qed.
 
+(* ScipyDistribution subclasses: the fit is skipped (parameters unchanged) when EVERY parameter is fixed ... *)
+Theorem C11_SD_fit_skipped_iff_all_fixed :
+  forall (T : Type) (dflt : T) (fit : fitcall T -> list T) (fam : string) 
+         (names : list string) (stored : list T) (fixed : list (option T)),
+       Datatypes.length names = Datatypes.length fixed ->
+       (forall o : option T, In o fixed -> o <> None) -> sd_fit dflt fit fam names stored fixed = stored.
+Proof. exact (@sd_fit_skipped_iff_all_fixed). Qed.
+
+(* ... and otherwise scipy's fit is called with the shapes as positional start values, loc/scale start values and one f<name> keyword per fixed parameter *)
+Theorem C11_SD_fit_runs_when_something_free :
+  forall (T : Type) (dflt : T) (fit : fitcall T -> list T) (fam : string) 
+         (names : list string) (stored : list T) (fixed : list (option T)),
+       Datatypes.length names = Datatypes.length fixed ->
+       In None fixed ->
+       sd_fit dflt fit fam names stored fixed =
+       fit
+         {|
+           f_family := fam;
+           f_pos := firstn (Datatypes.length names - 2) stored;
+           f_kw :=
+             [("loc", nth (Datatypes.length names - 2) stored dflt);
+              ("scale", nth (S (Datatypes.length names - 2)) stored dflt)] ++ sd_fkw names fixed
+         |}.
+Proof. exact (@sd_fit_runs_when_something_free). Qed.
+
 Example C11_nonvacuous :
   WeibullDistribution_alpha (WeibullDistribution_init 1 1 0 (Some 2) None None) = 2 /\
   f_kw (GG_call (GeneralizedGammaDistribution_init 1 1 1 (Some 2) None (Some 4))) = [("scale", 1 / 4); ("floc", 0); ("f0", 2); ("fscale", 1 / 4)].
@@ -372,3 +397,5 @@ Print Assumptions C11_VM_fit_call.
 Print Assumptions C11_VM_fit_keywords_valid.
 Print Assumptions C11_VM_fit_fixed.
 Print Assumptions C11_cond_fixed_independent_of_given.
+Print Assumptions C11_SD_fit_skipped_iff_all_fixed.
+Print Assumptions C11_SD_fit_runs_when_something_free.
